@@ -105,7 +105,10 @@ def engine_quirk(ex, case, ref=None):
     if exc_name(ex) == "OperationalError" and ("string_agg" in msg or 'near "ORDER": syntax error' in msg):
         from .ir import has_op, step_exprs
 
-        if any(has_op(e, {"str.join"}) for s in case.get("steps", []) for e in step_exprs(s)):
+        exprs = [e for s in case.get("steps", []) for e in step_exprs(s)]
+        if isinstance(case.get("expr"), dict) and "expr" in case["expr"]:
+            exprs.append(case["expr"]["expr"])  # C20's stand-alone expression
+        if any(has_op(e, {"str.join"}) for e in exprs):
             # the SQLite library of this sandbox predates string_agg / ORDER BY inside aggregates (3.44)
             return "sqlite_without_string_agg"
     if exc_name(ex) == "OperationalError" and "parser stack overflow" in msg:
